@@ -197,4 +197,30 @@ theorem interpDictStr_utf8 (ext : Ext) {vals : B} {vdt : DataType} {n : Bool} {m
     cases ty <;> simp [B.isUtf8B, isUtf8Ty] at hu <;> rfl
   | _ => simp [B.isUtf8B] at hu
 
+/-- a scalar that means something at a covered dictionary: the value builder is a Utf8 / LargeUtf8 builder -/
+theorem dict_interp_utf8 {ext : Ext} {x : SVal} {kdt vdt : DataType} {lv : LVal} {vals : B} {n : Bool} {md : Metadata}
+    (hsv : Shape vals vdt n md) (hu : vals.isUtf8B = true ∨ vals.refusesStr = true)
+    (hi : interpScalar ext (.dictionary kdt vdt) x = .ok lv) : vals.isUtf8B = true := by
+  rcases hu with h | hr
+  · exact h
+  · exfalso
+    simp only [interpScalar] at hi
+    cases hs : scalarToString ext x with
+    | none => simp [hs, fail] at hi
+    | some s =>
+      obtain ⟨e, he⟩ := interpDictStr_refused ext s hsv hr
+      simp [hs, he] at hi
+
+/-- the dictionary clause of `interpScalar` at a Utf8 / LargeUtf8 value builder -/
+theorem interpScalar_dict_utf8 {ext : Ext} {x : SVal} {kdt vdt : DataType} {vals : B} {n : Bool} {md : Metadata}
+    (hsv : Shape vals vdt n md) (hu : vals.isUtf8B = true) :
+    interpScalar ext (.dictionary kdt vdt) x =
+      (match scalarToString ext x with
+      | some s => .ok (.str (strBytes s))
+      | none => fail "not a string") := by
+  simp only [interpScalar]
+  cases hs : scalarToString ext x with
+  | none => rfl
+  | some s => simp only [interpDictStr_utf8 ext s hsv hu]
+
 end SaModel.Build
